@@ -190,6 +190,9 @@ def run(ctx, led):
     run_rule(led, "L3", "no fabricated reason reference; only decisions lack a reason (shared with "
              "C02-U2)", shared.no_fabricated_reason, ctx)
     run_rule(led, "L4", "a reified propagator's conflict carries the literal (shared with C09-R1)", C09.r1, ctx)
+    run_rule(led, "L4b", "an explanation cached by the reification wrapper is dropped on every "
+             "backtrack, so it is never given in a state in which its facts no longer hold (shared with "
+             "C09-R3)", C09.r3, ctx)
     run_rule(led, "L5", "a lazy explanation is independent of the current domains (TAINT with control "
              "dependence from current-state reads into the returned predicates)", l5, ctx)
     run_rule(led, "L6", "a reason assembled from input data outside propagate is filtered to "
